@@ -287,6 +287,46 @@ def h_obsfcst(ctx):
     ctx.nontrivial()
 
 
+def h_names(ctx):
+    """columns are per input file even when two inputs carry the same name"""
+    seed = core.seed()
+    typ = ctx.choose("type", ("csv", "text"), free=True)
+    how = ctx.choose("names", ("same-basename", "same-legend", "legend-like-dimension"), free=True)
+    axis = ctx.choose("axis", ("leadtime", "location", "no"), free=True)
+    inputs = build(2, seed)
+    paths = []
+    for k, ai in enumerate(inputs):
+        d = os.path.join(H.scratch(), "c12names", "exp%d" % k)
+        os.makedirs(d, exist_ok=True)
+        pth = os.path.join(d, "scores.txt" if how == "same-basename" else ai.name)
+        gen.text_file(ai, pth)
+        paths.append(pth)
+    argv = paths + ["-m", "mae", "-x", axis, "-type", typ]
+    if how == "same-legend":
+        argv += ["-leg", "sys,sys"]
+    elif how == "legend-like-dimension":
+        argv += ["-leg", "lat,Leadtime"]
+    ref = RD.RefData(inputs)
+    r = H.run_cli(argv)
+    if r.kind != "ok":
+        ctx.fail("names:%s:%s" % (r.kind, r.site or "rejected"), stdout=r.stdout[-200:])
+        return
+    hdr, rows = parse_table(r.stdout, typ)
+    lead = 4 if axis in RD.LOC_AXES else 1
+    if not ctx.require(len(hdr) == lead + 2 and all(len(x) == lead + 2 for x in rows), "names:column-count", header=hdr):
+        return
+    for k in range(len(rows)):
+        for i in range(2):
+            e = RS.score(ref, "mae", i, axis, k)
+            cell = rows[k][lead + i]
+            ok = CD.close_printed(e, cell, 6 if typ == "csv" else 4) if e is not None else cell == "nan"
+            if not ok:
+                ctx.fail("names:column-holds-another-inputs-scores:%s" % how, type=typ, row=k, input=i, expected=e, actual=cell, header=hdr)
+    ctx.observe((typ, how, axis, tuple(tuple(x) for x in rows)))
+    ctx.outcome(how)
+    ctx.nontrivial()
+
+
 REFUSING = ["qq", "scatter", "cond", "freq", "reliability", "roc", "taylor", "pithist", "performance", "error", "marginal",
             "discrimination", "murphy", "economicvalue", "bsdecomp", "igncontrib", "spreadskill", "timeseries", "meteo", "against",
             "change", "autocorr", "autocov", "droc", "droc0", "invreliability"]
@@ -323,7 +363,7 @@ def plan(tier):
     q = tier == "quick"
     return [("tables", harness, {"ns": [1, 2, 3] if not q else [1, 2, 3], "metrics": METRICS_Q if q else METRICS_Q + ["stderror", "rankcorr", "far", "threat", "bss", "pc", "mbias", "within", "pit"],
                                  "axes": DATA_AXES + ["threshold", "obs", "fcst"]}),
-            ("obsfcst", h_obsfcst, {}), ("refuse", h_refuse, {})]
+            ("obsfcst", h_obsfcst, {}), ("names", h_names, {}), ("refuse", h_refuse, {})]
 
 
 def run(tier, only=None):
@@ -333,7 +373,7 @@ def run(tier, only=None):
             continue
         t0 = time.time()
         st = explore.explore(h, mode="full", params=params, repo_root=core.REPO, time_cap=(400 if tier == "quick" else 3000))
-        subs.append(core.Sub.from_e1(name, st, bound={"tables": "full product inputs x metrics x axes x {csv,text} x -f x -leg x -acc", "refuse": "26 diagrams x {csv,text}", "obsfcst": "full product inputs x 6 axes x {csv,text} x 4 quantile lists x 2 aggregators"}[name],
+        subs.append(core.Sub.from_e1(name, st, bound={"tables": "full product inputs x metrics x axes x {csv,text} x -f x -leg x -acc", "refuse": "26 diagrams x {csv,text}", "obsfcst": "full product inputs x 6 axes x {csv,text} x 4 quantile lists x 2 aggregators", "names": "{csv,text} x 3 ways of giving two inputs the same / a confusing name x 3 axes"}[name],
                                      rule="one execution = one command line; header, row labels and every number compared with the reference; non-trivial = more than one row or column",
                                      wall=time.time() - t0))
     return subs
